@@ -299,6 +299,8 @@ JIndex(ev, reg) ==
               IN IF ~single THEN "value_not_monomial"
                  ELSE IF \E k \in 1..Len(d.el) : d.el[k][CHOOSE m \in DOMAIN d.el[k] : TRUE] # NOne THEN "value_coefficient"
                  ELSE IF Len(r.names) # Len(ev.stop) THEN "names"
+                 ELSE IF ev.dim_names # <<>> /\ r.names # ev.dim_names THEN "names"      \* `dimensions` given as names
+                 ELSE IF ev.dim_names = <<>> /\ r.names # [j \in 1..Len(ev.stop) |-> j - 1] THEN "names"
                  ELSE IndexRowsOK([k \in 1..Len(d.el) |->
                          LET m == CHOOSE mm \in DOMAIN d.el[k] : TRUE
                          IN [j \in 1..Len(r.names) |-> MExp(m, r.names[j])]], ev)
